@@ -111,7 +111,30 @@ func v2Fns(rec *v2rec) map[string]*runtimev2.Fn {
 			Desc: runtimev2.FnDesc{Name: name},
 		}
 	}
-	return map[string]*runtimev2.Fn{"p": mk("p"), "pr": mk("pr"), "void": mk("void"), "multi": mk("multi"), "len": mk("len")}
+	// `none(...)`: a host function written with the library's own parameter API (CheckPassParam /
+	// GetParam) that reads its arguments and returns nothing (it never touches the registers itself)
+	noneParams := []*runtimev2.Param{{Name: "r", Variable: true}}
+	none := &runtimev2.Fn{
+		CallCheck: func(ctx *runtimev2.Task, expr *ast.CallExpr) *errchain.PlError {
+			return runtimev2.CheckPassParam(ctx, expr, noneParams)
+		},
+		Call: func(ctx *runtimev2.Task, expr *ast.CallExpr) *errchain.PlError {
+			v, err := runtimev2.GetParam(ctx, expr, noneParams, 0)
+			if err != nil {
+				return err
+			}
+			ev := []string{"none"}
+			if l, ok := v.([]any); ok {
+				for _, x := range l {
+					ev = append(ev, goDType(x)+"="+render(x))
+				}
+			}
+			rec.events = append(rec.events, ev)
+			return nil
+		},
+		Desc: runtimev2.FnDesc{Name: "none", Params: noneParams},
+	}
+	return map[string]*runtimev2.Fn{"p": mk("p"), "pr": mk("pr"), "void": mk("void"), "multi": mk("multi"), "len": mk("len"), "none": none}
 }
 
 func runV2Direct(rc runCase) map[string]any {
@@ -216,7 +239,7 @@ func genC18(e *emitter, tier string, seed int64) {
 	// constructs that yield no value (or several) in every consuming position
 	noval := []string{"void()", "a.b", "nosuchfn_unregistered"}
 	_ = noval
-	valueless := []string{"void()", "x.y", "multi(1, 2)", "multi()", "pr()"}
+	valueless := []string{"void()", "x.y", "multi(1, 2)", "multi()", "pr()", "none(7)", "none(a, 2)", "void(9)"}
 	positions := []string{
 		"a = 5\nb = @\np(a, b)\n", "a = 5\nif @ {\n  p(1)\n}\np(2)\n", "a = 5\np(@ + 1)\n", "a = 5\np(1 + @)\n", "a = 5\np(@)\n", "a = 5\np(1, @)\n",
 		"a = 5\nfor ; @; {\n  break\n}\n", "a = 5\nfor x in @ {\n  p(x)\n}\n", "a = 5\nl = [1, @]\np(l)\n", "a = 5\nm = {\"k\": @}\np(m)\n", "a = 5\nm = {@: 1}\n",
@@ -226,10 +249,28 @@ func genC18(e *emitter, tier string, seed int64) {
 		"a = 5\np(len(@))\n", "a = 5\nb = pr(@)\np(b)\n", "a = 5\nb = (@)\np(b)\n",
 	}
 	for _, pos := range positions {
-		for _, v := range append(valueless, "a", "7", "undefined_name", "nil") {
+		for _, v := range append(valueless, "a", "7", "undefined_name", "nil", "pr(1)", "pr(a - 4)", "len([a])", "nofn(1)", "pr(1, 2)", "{1: 2}") {
 			emitV2(e, strings.Replace(pos, "@", v, 1), 3000, "novalue-positions")
 		}
 	}
+	// every operand position of a slice holds a call (its check pass prepares the arguments)
+	for _, src := range []string{
+		"l = [1, 2, 3, 4, 5]\np(l[pr(0):pr(4):pr(2)])\n", "l = [1, 2, 3, 4, 5]\np(l[::pr(2)], l[pr(1)::], l[:pr(2):])\n", "p([1, 2, 3, 4, 5][::pr(2)])\n",
+		"s = \"abcdef\"\np(s[::len([1, 2])], s[len(\"a\"):len(\"abc\")])\n", "l = [1, 2, 3]\np(l[::nofn()])\n", "l = [1, 2, 3]\np(l[0:2:pr(1, 2)])\n", "l = [1, 2, 3]\np(l[nofn():])\n",
+		"l = [1, 2, 3]\np(l[:nofn()])\n", "l = [1, 2, 3]\np(l[::{1: 2}])\n", "l = [[1, 2, 3]]\np(l[pr(0)][pr(0):pr(2)][::pr(1)])\n",
+	} {
+		emitV2(e, src, 3000, "slice-operands")
+	}
+	// ordered comparison of integers is exact at every magnitude (also as a loop condition)
+	bigs := []string{"9007199254740992", "9007199254740993", "9007199254740994", "9223372036854775806", "9223372036854775807", "-9223372036854775807", "-9223372036854775806",
+		"1700000000000000000", "1700000000000000001", "0", "1", "-1", "9007199254740993.0", "true"}
+	for _, x := range bigs {
+		for _, y := range bigs {
+			emitV2(e, fmt.Sprintf("x = %s\ny = %s\np(x < y, x <= y, x > y, x >= y, x == y, x != y)\nif x < y {\n  p(\"lt\")\n} elif x > y {\n  p(\"gt\")\n} else {\n  p(\"eq\")\n}\n", x, y), 3000, "int-order")
+		}
+	}
+	emitV2(e, "n = 0\nfor i = 9223372036854775800; i < 9223372036854775803; i = i + 1 {\n  n = n + 1\n}\np(n)\n", 3000, "int-order")
+	emitV2(e, "n = 0\nfor i = 9007199254740992; i <= 9007199254740993; i = i + 1 {\n  n = n + 1\n}\np(n)\n", 3000, "int-order")
 	// multi-assignment: the whole right side is evaluated before assigning
 	for _, src := range []string{
 		"a = 1\nb = 2\na, b = b, a\np(a, b)\n", "a, b = multi(1, 2)\np(a, b)\n", "a, b = 1\n", "a = multi(1, 2)\n", "a, b, c = multi(1, 2), 3\np(a, b, c)\n",
@@ -273,4 +314,25 @@ func genC18(e *emitter, tier string, seed int64) {
 		out := emitV2(e, src, 3000, "prog")
 		_ = out
 	}
+}
+
+// goDType: the language type name of a raw Go value (as ast.DType.String() prints it)
+func goDType(x any) string {
+	switch x.(type) {
+	case nil:
+		return ast.Nil.String()
+	case int64:
+		return ast.Int.String()
+	case float64:
+		return ast.Float.String()
+	case bool:
+		return ast.Bool.String()
+	case string:
+		return ast.String.String()
+	case []any:
+		return ast.List.String()
+	case map[string]any:
+		return ast.Map.String()
+	}
+	return "?"
 }
